@@ -470,6 +470,8 @@ pub enum Op {
     Swap { user: u8, dir: bool, amt: Amt },
     ProvideThenWithdraw { user: u8, a0: Amt, a1: Amt },
     Collect,
+    /// adversarial: direct `WithdrawLiquidity {}` with a native coin attached (cw20-LP pool)
+    WithdrawDirect { user: u8, denom: u8, amount: Uint128 },
 }
 
 #[derive(Clone, Debug, Serialize, Deserialize)]
@@ -492,10 +494,11 @@ fn op() -> BoxedStrategy<Op> {
         2 => (0u8..4, amt100(), amt100(), any::<bool>()).prop_map(|(user, a0, a1, reversed)| Op::Provide { user, a0, a1, reversed }),
         2 => (0u8..4, 1u16..30000).prop_map(|(user, k)| Op::ProvideBalanced { user, k }),
         2 => (0u8..4, any::<bool>(), 1u16..60000).prop_map(|(user, which, k)| Op::ProvideOneSided { user, which, k }),
-        3 => (0u8..4, any::<u16>()).prop_map(|(user, k)| Op::Withdraw { user, k }),
+        3 => (0u8..4, gen::share_sel()).prop_map(|(user, k)| Op::Withdraw { user, k }),
         6 => (0u8..4, any::<bool>(), amt100()).prop_map(|(user, dir, amt)| Op::Swap { user, dir, amt }),
         2 => (0u8..4, amt100(), amt100()).prop_map(|(user, a0, a1)| Op::ProvideThenWithdraw { user, a0, a1 }),
         1 => Just(Op::Collect),
+        1 => (0u8..4, 0u8..3, prop_oneof![Just(1u128), Just(1000), gen::amount(1, 1u128 << 70)]).prop_map(|(user, denom, a)| Op::WithdrawDirect { user, denom, amount: Uint128::new(a) }),
     ]
     .boxed()
 }
@@ -755,6 +758,24 @@ impl Check for SsPoolHistory {
                 Op::Collect => {
                     let who = pw.user(3);
                     let _ = pw.collect(&who);
+                    before = pw.view().map_err(|e| Fail::new(format!("Pool query failed: {e}")))?;
+                }
+                Op::WithdrawDirect { user, denom, amount } => {
+                    let usr = pw.user(*user);
+                    let d = ["uaaa", "ubbb", "uccc"][(*denom % 3) as usize];
+                    let b = [pw.w.bal(&pw.infos[0], &usr), pw.w.bal(&pw.infos[1], &usr)];
+                    let lp_b = pw.lp_balance(&usr);
+                    if pw.withdraw_direct(&usr, d, amount.u128()).is_ok() {
+                        rec.class("withdraw_direct_accepted");
+                        let a = [pw.w.bal(&pw.infos[0], &usr), pw.w.bal(&pw.infos[1], &usr)];
+                        let lp_a = pw.lp_balance(&usr);
+                        ensure!(
+                            lp_a < lp_b || (a[0] <= b[0] && a[1] <= b[1]),
+                            "step {step}: the direct WithdrawLiquidity message with {amount}{d} attached paid the sender out of the pool (balances {b:?} -> {a:?}) although its LP balance did not fall ({lp_b} -> {lp_a})"
+                        );
+                        let locked = pw.lp_balance(&pw.pair);
+                        ensure!(locked >= 1000, "step {step}: minimum-liquidity stake not locked after a direct WithdrawLiquidity message: pair holds {locked} LP");
+                    }
                     before = pw.view().map_err(|e| Fail::new(format!("Pool query failed: {e}")))?;
                 }
             }
